@@ -3,7 +3,7 @@
   and to the dishonor of its proposer.
 -/
 import DymVerif.Lemmas.CoreLevSched
-namespace DymVerif.Core
+namespace DymVerif.Core.LevNs
 
 theorem getRa_setRa_same_id {s : St} {id : Nat} {r r' : Rollapp} (hg : getRa s id = some r) (hid : r'.id = id) :
     getRa (setRa s r') id = some r' := by
@@ -121,4 +121,4 @@ theorem nextSlashHeight_fresh_zero (I h : Nat) (hI : 1 ≤ I) : nextSlashHeight 
   have := nextSlashHeight_step 0 I h 0 hI
   simpa using this
 
-end DymVerif.Core
+end DymVerif.Core.LevNs
